@@ -54,8 +54,7 @@ Theorem C03_crash_recovery_partial :
       (no_valid_window crc tail ->
          let b := bootstrap crc bufsz can_write max_novel image in
          b_err b = 0 /\ b_root b = last_root pre /\ b_off b = total_len pre /\
-         (forall h, rng_get (b_ranges b) h = rng_get {| novel := spec_ranges 0 pre []; cached := [] |} h
-                    \/ (can_write = true /\ (max_novel <? rng_novel_count {| novel := spec_ranges 0 pre []; cached := [] |}) = true))) /\
+         b_ranges b = (if can_write && (max_novel <? rng_novel_count (spec_table pre)) then flatten (spec_table pre) else spec_table pre)) /\
       (forall before ts a after, w_recs s = before ++ WRoot ts a :: after ->
          total_len (before ++ [WRoot ts a]) <= N.of_nat k ->
          exists post, pre = before ++ WRoot ts a :: post).
@@ -93,3 +92,73 @@ Theorem C03_data_loss_reported :
     data_loss_check crc bufsz (g ++ enc crc (WRoot ts a) ++ enc crc r2 ++ rest) = true.
 Proof. exact data_loss_reported. Qed.
 Print Assumptions C03_data_loss_reported.
+
+(* the scan is compositional: a run of intact records, then whatever follows *)
+Theorem C03_scan_app :
+  forall (crc : bytes -> N) (bufsz : N), (forall b, crc b < 4294967296) ->
+  forall (cbok : prec -> bool), (forall r, wf_rec bufsz r -> cbok (prec_of r) = true) ->
+  forall rs off junk, Forall (wf_rec bufsz) rs ->
+    scan crc bufsz cbok off (enc_all crc rs ++ junk) =
+      prep (items_of off rs) (scan crc bufsz cbok (off + total_len rs) junk).
+Proof. exact scan_app. Qed.
+Print Assumptions C03_scan_app.
+
+(* crash_recovery — every op history, every intermediate writer state (appends, flush, root record, Sync,
+   index meta, ack), every crash image between the synced and the written length. *)
+Theorem C03_crash_recovery :
+  forall (crc : bytes -> N) (bufsz : N), (forall b, crc b < 4294967296) -> bufsz < 4294967296 ->
+  forall (threshold max_novel : N) (ops : list op),
+    Forall op_ok ops ->
+    forall s, In s (trace crc bufsz threshold max_novel ops w_init) ->
+    forall (k : nat), w_synced s <= N.of_nat k -> (k <= length (w_file s))%nat ->
+    forall (can_write : bool) (mn : N),
+    let image := firstn k (w_file s) in
+    let pre := fit_prefix (w_recs s) (N.of_nat k) in
+    exists tail,
+      image = enc_all crc pre ++ tail /\
+      (match w_acked s with
+       | [] => True
+       | a :: _ => exists before ts post, pre = before ++ WRoot ts a :: post /\
+                                          (last_root pre = a \/ In (last_root pre) (roots_of post))
+       end) /\
+      (no_valid_window crc tail ->
+         let b := bootstrap crc bufsz can_write mn image in
+         b_err b = 0 /\ b_root b = last_root pre /\ b_off b = total_len pre /\
+         b_ranges b = (if can_write && (mn <? rng_novel_count (spec_table pre)) then flatten (spec_table pre) else spec_table pre) /\
+         (forall h p, In (WChunk h p) pre -> exists rg, assoc h (spec_ranges 0 pre []) = Some rg)).
+Proof. exact crash_recovery. Qed.
+Print Assumptions C03_crash_recovery.
+
+(* the variant in which everything written after the last Sync is lost or replaced by arbitrary bytes *)
+Theorem C03_crash_recovery_unsynced_lost :
+  forall (crc : bytes -> N) (bufsz : N), (forall b, crc b < 4294967296) -> bufsz < 4294967296 ->
+  forall (threshold max_novel : N) (ops : list op),
+    Forall op_ok ops ->
+    forall s, In s (trace crc bufsz threshold max_novel ops w_init) ->
+    exists n, (n <= length (w_recs s))%nat /\
+      let durable := firstn n (w_recs s) in
+      w_synced s = total_len durable /\
+      firstn (N.to_nat (w_synced s)) (w_file s) = enc_all crc durable /\
+      (match w_acked s with
+       | [] => True
+       | a :: _ => exists before ts post, durable = before ++ WRoot ts a :: post
+       end) /\
+      forall (junk : bytes) (can_write : bool) (mn : N),
+        let image := enc_all crc durable ++ junk in
+        scan crc bufsz kind_ok 0 image = prep (items_of 0 durable) (scan crc bufsz kind_ok (w_synced s) junk) /\
+        (no_valid_window crc junk ->
+           let b := bootstrap crc bufsz can_write mn image in
+           b_err b = 0 /\ b_root b = last_root durable /\ b_off b = w_synced s /\
+           b_ranges b = (if can_write && (mn <? rng_novel_count (spec_table durable)) then flatten (spec_table durable) else spec_table durable)).
+Proof. exact crash_recovery_unsynced_lost. Qed.
+Print Assumptions C03_crash_recovery_unsynced_lost.
+
+(* the index stream of every writer state, including the intermediate-sync path of large writes *)
+Theorem C03_index_stream_covers :
+  forall (crc : bytes -> N) (bufsz : N), (forall b, crc b < 4294967296) -> bufsz < 4294967296 ->
+  forall (threshold max_novel : N) (ops : list op),
+    Forall op_ok ops ->
+    forall s, In s (trace crc bufsz threshold max_novel ops w_init) ->
+    ilookups (w_idx s) = rlookups 0 (w_recs s) /\ metas_ok (w_idx s) (w_recs s).
+Proof. exact index_stream_covers. Qed.
+Print Assumptions C03_index_stream_covers.
